@@ -2,6 +2,8 @@
 """regenerates MANIFEST.json from the table below (kept valid at all times)"""
 import json
 CLAIMED = {
+ "C11": ("strings: equality impls compare lengths before zipping, UTF-8 bytes meet Latin-1 payloads only for ASCII, hash arms agree, static table literals ASCII",
+         "dominance/provenance rules over MIR of boa_string incl. promoted constant bodies", "§5 C11"),
  "C04": ("binding placement: the three scope visitors agree on scope-bearing nodes, eval/with force escapes, const cache guarded by in_with, aliased operand registers not live across another operand's code",
          "sibling agreement over impl facts + dominance + interprocedural value flow over the bytecompiler call graph", "§5 C04"),
  "C05": ("optimizer: duplication only under a literal-only purity test, rewrites only under Literal tests, folding evaluates literals only, DCE keeps hoisted declarations and loop initialisers",
